@@ -861,8 +861,10 @@ def bounded(rep: Report, tier, seed):
     b2 = rep.add_bounded(Bounded("scaling_and_preconditioning", f"n = 2..{N}; c in 1e-6, 1e-3, 1, 1e3, 1e6; classes generic / hermitian / triangular / identity_low_rank",
                                  "x(cA, cb) = x(A, b) and x(left_lu) = x(none) = the true solution, to 1e-6 relative (tol 1e-12)"))
     for n in range(2, N + 1):
-        for kind in ("generic", "hermitian", "triangular", "identity_low_rank"):
-            A4 = matrix_class(rng, kind, n)
+        for kind in ("generic", "hermitian", "triangular", "identity_low_rank", "graded_1e3"):
+            # graded_1e3: singular values 1 .. 1e-3, so that after scaling by 1e-6 the small triangular factor has diagonal entries
+            # down to 1e-9 (still far above the 1e-14 zero-pivot threshold of the back substitution)
+            A4 = rt.from_svd(rng, n, n, list(np.geomspace(1.0, 1e-3, n)))[0] if kind == "graded_1e3" else matrix_class(rng, kind, n)
             b4 = rng.standard_normal((n, 1, 4))
             xt = true_solution(A4, b4)
 
